@@ -74,10 +74,11 @@ fn exec_dd_history<D: DecisionDiagram<State = TState> + Default>(inst: &Inst, op
         let completion = match res { Err(_) => { st.aborted += 1; prev_aborted = true; continue; } Ok(c) => c };
         prev_aborted = false;
         let h = inst.hstar[op.layer][op.base];
-        let opt_r = if h <= NEG { NEG } else { op.value + h };
+        let opt_r: Wide = if h <= NEG { NEG } else { op.value as Wide + h };
+        let lbw = op.lb as Wide;
         if opt_r == NEG { st.infeasible_root += 1; }
-        if opt_r != NEG && op.lb >= opt_r { st.lb_above += 1; }
-        let beats = opt_r > NEG && opt_r > op.lb;
+        if opt_r != NEG && lbw >= opt_r { st.lb_above += 1; }
+        let beats = opt_r > NEG && opt_r > lbw;
         let no_rub = inst.t.rub == Rub::None;
         let replay_full = |sol: Option<Solution>| -> Result<isize, String> { match sol { None => Err("no solution".into()), Some(s) => inst.replay(&s).map(|x| x.0) } };
         if completion.best_value != dd.best_value() || completion.is_exact != dd.is_exact() {
@@ -86,7 +87,7 @@ fn exec_dd_history<D: DecisionDiagram<State = TState> + Default>(inst: &Inst, op
         match op.ctype {
             1 => {
                 st.relaxed += 1;
-                if beats && !dd.best_value().map_or(false, |b| b >= opt_r) {
+                if beats && !dd.best_value().map_or(false, |b| b as Wide >= opt_r) {
                     out.push(v(&["C06"], "relaxed-bound-too-low", format!("relaxed best_value = {:?} < sub-problem optimum {opt_r} which beats the incumbent; {ctx}", dd.best_value())));
                 }
                 if dd.is_exact() {
@@ -94,14 +95,14 @@ fn exec_dd_history<D: DecisionDiagram<State = TState> + Default>(inst: &Inst, op
                     if monitor::MERGE_CALLS.load(std::sync::atomic::Ordering::Relaxed) > 0 { st.exact_best_path_with_merges += 1; }
                     let bev = dd.best_exact_value();
                     if let Some(b) = bev {
-                        if opt_r == NEG || b > opt_r { out.push(v(&["C06"], "exact-value-above-optimum", format!("diagram declares itself exact with best exact value {b} but the sub-problem optimum is {}; {ctx}", if opt_r == NEG { "-inf (infeasible)".to_string() } else { opt_r.to_string() }))); }
+                        if opt_r == NEG || b as Wide > opt_r { out.push(v(&["C06"], "exact-value-above-optimum", format!("diagram declares itself exact with best exact value {b} but the sub-problem optimum is {}; {ctx}", if opt_r == NEG { "-inf (infeasible)".to_string() } else { opt_r.to_string() }))); }
                         match replay_full(dd.best_exact_solution()) {
                             Ok(val) if val == b => {}
                             Ok(val) => out.push(v(&["C06"], "exact-solution-value", format!("best exact solution evaluates to {val} in the model, best exact value is {b}; {ctx}"))),
                             Err(e) => out.push(v(&["C06"], "exact-solution-infeasible", format!("best exact solution is not a feasible completion: {e}; {ctx}"))),
                         }
                     }
-                    if (beats || (no_rub && opt_r > NEG && op.lb == isize::MIN)) && bev != Some(opt_r) {
+                    if (beats || (no_rub && opt_r > NEG && op.lb == isize::MIN)) && bev.map(|b| b as Wide) != Some(opt_r) {
                         out.push(v(&["C06"], "exact-but-not-optimum", format!("diagram declares itself exact, best exact value = {:?}, sub-problem optimum = {opt_r}; {ctx}", bev)));
                     }
                 } else {
@@ -132,15 +133,15 @@ fn exec_dd_history<D: DecisionDiagram<State = TState> + Default>(inst: &Inst, op
                             if inst.d5_precondition(op.layer, op.base) { "D5-precondition holds: the children of the root are not all expanded at the same layer" } else { "D5-precondition does NOT hold" }))); }
                         if c.depth <= inst.t.n {
                             let hc = inst.hstar[c.depth.min(inst.t.n)][b];
-                            if hc > NEG && c.value + hc > op.lb && c.ub < c.value + hc { out.push(v(&["C08"], "cutset-ub-too-low", format!("ub {} < best completion through it {} which beats the incumbent; {cctx}", c.ub, c.value + hc))); }
+                            if hc > NEG && c.value as Wide + hc > lbw && (c.ub as Wide) < c.value as Wide + hc { out.push(v(&["C08"], "cutset-ub-too-low", format!("ub {} < best completion through it {} which beats the incumbent; {cctx}", c.ub, c.value as Wide + hc))); }
                         }
                         cs_pos.push((c.depth, b));
                     }
                     // coverage (iv): every completion of the root that beats incumbent and best exact value goes through a handed-out node
                     if inst.t.n <= 6 && opt_r > NEG {
-                        let thr = op.lb.max(bev.unwrap_or(isize::MIN));
+                        let thr = lbw.max(bev.unwrap_or(isize::MIN) as Wide);
                         for (traj, togo) in inst.enumerate_completions(op.layer, op.base) {
-                            let val = op.value + togo;
+                            let val = op.value as Wide + togo;
                             if val > thr {
                                 st.completions_checked += 1;
                                 if !traj.iter().any(|p| cs_pos.contains(p)) {
@@ -156,19 +157,19 @@ fn exec_dd_history<D: DecisionDiagram<State = TState> + Default>(inst: &Inst, op
                 st.restricted += 1;
                 if !completion.is_exact { st.restricted_inexact += 1; }
                 if let Some(b) = dd.best_value() {
-                    if opt_r == NEG || b > opt_r { out.push(v(&["C07"], "restricted-above-optimum", format!("restricted best_value {b} > sub-problem optimum {}; {ctx}", if opt_r == NEG { "-inf".to_string() } else { opt_r.to_string() }))); }
+                    if opt_r == NEG || b as Wide > opt_r { out.push(v(&["C07"], "restricted-above-optimum", format!("restricted best_value {b} > sub-problem optimum {}; {ctx}", if opt_r == NEG { "-inf".to_string() } else { opt_r.to_string() }))); }
                     match replay_full(dd.best_solution()) {
                         Ok(val) if val == b => {}
                         Ok(val) => out.push(v(&["C07"], "restricted-solution-value", format!("best solution evaluates to {val}, reported {b}; {ctx}"))),
                         Err(e) => out.push(v(&["C07"], "restricted-solution-infeasible", format!("{e}; {ctx}"))),
                     }
                 }
-                if completion.is_exact && beats && dd.best_value() != Some(opt_r) { out.push(v(&["C07"], "restricted-exact-but-not-optimum", format!("restricted diagram declares itself exact with {:?}, optimum {opt_r}; {ctx}", dd.best_value()))); }
+                if completion.is_exact && beats && dd.best_value().map(|b| b as Wide) != Some(opt_r) { out.push(v(&["C07"], "restricted-exact-but-not-optimum", format!("restricted diagram declares itself exact with {:?}, optimum {opt_r}; {ctx}", dd.best_value()))); }
             }
             _ => {
                 st.exact += 1;
-                if beats && dd.best_value() != Some(opt_r) { out.push(v(&["C07"], "exact-mode-not-optimum", format!("exact-mode compilation yields {:?}, sub-problem optimum {opt_r}; {ctx}", dd.best_value()))); }
-                if let Some(b) = dd.best_value() { if opt_r == NEG || b > opt_r { out.push(v(&["C07"], "exact-mode-above-optimum", format!("exact-mode value {b} above optimum; {ctx}"))); } }
+                if beats && dd.best_value().map(|b| b as Wide) != Some(opt_r) { out.push(v(&["C07"], "exact-mode-not-optimum", format!("exact-mode compilation yields {:?}, sub-problem optimum {opt_r}; {ctx}", dd.best_value()))); }
+                if let Some(b) = dd.best_value() { if opt_r == NEG || b as Wide > opt_r { out.push(v(&["C07"], "exact-mode-above-optimum", format!("exact-mode value {b} above optimum; {ctx}"))); } }
             }
         }
     }
@@ -194,7 +195,7 @@ fn gen_dd_history(rng: &mut Rng, inst: &Inst) -> Vec<CompileOp> {
         let (l, a, val, path) = subs[rng.below(subs.len())].clone();
         if l >= inst.t.n { continue; }
         let h = inst.hstar[l][a];
-        let opt_r = if h <= NEG { None } else { Some(val + h) };
+        let opt_r: Option<isize> = if h <= NEG { None } else { Some(clamp_isize(val as Wide + h)) };
         let lb = match (opt_r, rng.below(7)) { (None, 0..=4) => isize::MIN, (None, _) => rng.range(-5, 5), (Some(_), 0 | 1) => isize::MIN, (Some(o), 2) => o - 1 - rng.below(3) as isize, (Some(o), 3) => o - 1, (Some(o), 4) => o, (Some(o), _) => o + 1 + rng.below(3) as isize };
         let ctype = match rng.below(6) { 0 => 0, 1 | 2 => 2, _ => 1 };
         let width = *rng.pick(&[1, 1, 2, 2, 2, 3, 3, 4, 5]);
@@ -221,7 +222,7 @@ fn run_dd_history(arm: &str, seed: u64, run: u64, agg: &mut Agg, explicit: Optio
             let long_arcs = arm == "dd-history-longarc";
             let narrow = arm == "dd-history-narrow";
             let mut trng = rng.fork(1);
-            let mut t = Table::generate(&mut trng, GenOpts { depth_free: arm == "dd-history-depthfree", long_arcs, max_n: 6, max_s: 6, reconverge: false, dom_friendly: false, few_dead_arcs: narrow, knapsack_quarters: 0, top_merge_quarters: if narrow { 2 } else { 1 } });
+            let mut t = Table::generate(&mut trng, GenOpts { depth_free: arm == "dd-history-depthfree", long_arcs, max_n: 6, max_s: 6, reconverge: false, dom_friendly: false, few_dead_arcs: narrow, knapsack_quarters: 0, top_merge_quarters: if narrow { 2 } else { 1 }, abyss_one_in: if long_arcs { 0 } else { 10 } });
             if arm == "dd-history" && rng.chance(1, 3) { t.rub = Rub::None; }
             let dd = *rng.pick(&[Dd::Lel, Dd::Fc, Dd::Pooled]);
             let inst = Inst::new(t.clone());
